@@ -80,8 +80,20 @@ pub const STR_FNS: [&str; 9] = ["upper", "lower", "length", "ltrim", "rtrim", "a
 pub enum From {
     Table(usize),
     Join(&'static str, Box<From>, Box<From>, Option<E>),
-    /// derived table `(SELECT items FROM inner [WHERE w]) AS r`; its columns are c0, c1, …
-    Derived(Box<From>, Option<E>, Vec<E>),
+    /// derived table `(SELECT items FROM inner [WHERE w]) AS r`; its columns are c0, c1, …; written in place, or as a
+    /// common table expression `WITH w AS (SELECT …) … FROM w AS r`
+    Derived(Box<From>, Option<E>, Vec<E>, Cte),
+}
+
+/// how a derived table is written
+#[derive(Clone, Copy, Debug, PartialEq)]
+pub enum Cte {
+    /// in place
+    No,
+    /// WITH w<i> AS (…)
+    Named,
+    /// WITH t<j> AS (…): the name of a table of the database (which the statement does not use otherwise)
+    Shadow(usize),
 }
 
 #[derive(Clone, Debug)]
@@ -333,8 +345,12 @@ fn show_from(f: &From, out: &mut Vec<String>) {
                 }
             }
         }
-        From::Derived(inner, w, items) => {
-            out.push("d".into());
+        From::Derived(inner, w, items, cte) => {
+            out.push(match cte {
+                Cte::No => "d".into(),
+                Cte::Named => "cte".into(),
+                Cte::Shadow(j) => format!("ctes{}", j),
+            });
             show_from(inner, out);
             show_where(w, out);
             out.push(format!("p{}", items.len()));
@@ -595,7 +611,14 @@ fn p_from(t: &mut Toks) -> Option<From> {
             _ => return None,
         };
         Some(From::Join(k, Box::new(l), Box::new(r), on))
-    } else if w == "d" {
+    } else if w == "d" || w == "cte" || num_after("ctes", w).is_some() {
+        let cte = if w == "d" {
+            Cte::No
+        } else if w == "cte" {
+            Cte::Named
+        } else {
+            Cte::Shadow(num_after("ctes", w)?)
+        };
         let inner = p_from(t)?;
         let wh = p_where(t)?;
         let n = num_after("p", t.next()?)?;
@@ -603,7 +626,7 @@ fn p_from(t: &mut Toks) -> Option<From> {
         for _ in 0..n {
             items.push(p_expr(t)?);
         }
-        Some(From::Derived(Box::new(inner), wh, items))
+        Some(From::Derived(Box::new(inner), wh, items, cte))
     } else {
         Some(From::Table(num_after("t", w)?))
     }
@@ -888,7 +911,7 @@ pub fn leaves(f: &From, db: &[Table], out: &mut Vec<(usize, usize)>, width: &mut
             leaves(l, db, out, width);
             leaves(r, db, out, width);
         }
-        From::Derived(_, _, items) => {
+        From::Derived(_, _, items, _) => {
             out.push((DERIVED_LEAF, *width));
             *width += items.len();
         }
@@ -948,9 +971,37 @@ pub fn from_tys(f: &From, db: &[Table]) -> Vec<Ty> {
             tys.extend(from_tys(r, db));
             tys
         }
-        From::Derived(inner, _, items) => {
+        From::Derived(inner, _, items, _) => {
             let tys = from_tys(inner, db);
             items.iter().map(|e| expr_ty(e, &tys).unwrap_or(Ty::Bool)).collect()
+        }
+    }
+}
+
+/// every base table a FROM tree reads (at any depth)
+pub fn all_tables(f: &From, out: &mut Vec<usize>) {
+    match f {
+        From::Table(t) => out.push(*t),
+        From::Join(_, l, r, _) => {
+            all_tables(l, out);
+            all_tables(r, out)
+        }
+        From::Derived(inner, ..) => all_tables(inner, out),
+    }
+}
+
+fn unshadow(f: &mut From, used: &[usize]) {
+    match f {
+        From::Table(_) => {}
+        From::Join(_, l, r, _) => {
+            unshadow(l, used);
+            unshadow(r, used)
+        }
+        From::Derived(inner, _, _, cte) => {
+            if matches!(cte, Cte::Shadow(j) if used.contains(j)) {
+                *cte = Cte::Named;
+            }
+            unshadow(inner, used)
         }
     }
 }
@@ -969,7 +1020,7 @@ pub fn has_derived_where(f: &From) -> bool {
     match f {
         From::Table(_) => false,
         From::Join(_, l, r, _) => has_derived_where(l) || has_derived_where(r),
-        From::Derived(inner, w, _) => w.is_some() || has_derived_where(inner),
+        From::Derived(inner, w, ..) => w.is_some() || has_derived_where(inner),
     }
 }
 
@@ -990,33 +1041,60 @@ pub fn col_namer(f: &From, db: &[Table]) -> impl Fn(usize) -> String + 'static {
 
 /// `(SELECT e0 AS c0, … FROM inner [WHERE w]) AS r<k>`; the inner query has its own scope (aliases r0, r1, … again)
 pub fn sql_derived(inner: &From, w: &Option<E>, items: &[E], k: usize, db: &[Table]) -> String {
+    format!("({}) AS r{}", sql_derived_body(inner, w, items, db), k)
+}
+
+/// `SELECT e0 AS c0, … FROM inner [WHERE w]`; the query has its own scope (aliases r0, r1, … again)
+pub fn sql_derived_body(inner: &From, w: &Option<E>, items: &[E], db: &[Table]) -> String {
     let col = col_namer(inner, db);
     let mut next = 0;
     let list: Vec<String> = items.iter().enumerate().map(|(i, e)| format!("{} AS c{}", sql_expr(e, 1, &col), i)).collect();
-    let mut s = format!("(SELECT {} FROM {}", list.join(", "), sql_from(inner, db, &mut next, &col));
+    let mut s = format!("SELECT {} FROM {}", list.join(", "), sql_from(inner, db, &mut next, &col, None));
     if let Some(w) = w {
         s += &format!(" WHERE {}", sql_expr(w, 1, &col));
     }
-    s + &format!(") AS r{}", k)
+    s
 }
 
-fn sql_from(f: &From, db: &[Table], next: &mut usize, col: &dyn Fn(usize) -> String) -> String {
+/// the common table expressions of a statement: (name, body)
+pub type Ctes = Vec<(String, String)>;
+
+/// `ctes`: where the common table expressions of the statement are collected (`None` inside a derived table: there a
+/// CTE is written in place).  Two CTEs with the same text are one CTE used twice.
+fn sql_from(f: &From, db: &[Table], next: &mut usize, col: &dyn Fn(usize) -> String, mut ctes: Option<&mut Ctes>) -> String {
     match f {
         From::Table(t) => {
             let s = format!("t{} AS r{}", t, *next);
             *next += 1;
             s
         }
-        From::Derived(inner, w, items) => {
-            let s = sql_derived(inner, w, items, *next, db);
+        From::Derived(inner, w, items, cte) => {
+            let s = match (cte, ctes.as_deref_mut()) {
+                (Cte::No, _) | (_, None) => sql_derived(inner, w, items, *next, db),
+                (c, Some(list)) => {
+                    let body = sql_derived_body(inner, w, items, db);
+                    let name = match list.iter().find(|(_, b)| *b == body) {
+                        Some((n, _)) => n.clone(),
+                        None => {
+                            let n = match c {
+                                Cte::Shadow(j) if !list.iter().any(|(n, _)| *n == format!("t{}", j)) => format!("t{}", j),
+                                _ => format!("w{}", list.len()),
+                            };
+                            list.push((n.clone(), body));
+                            n
+                        }
+                    };
+                    format!("{} AS r{}", name, *next)
+                }
+            };
             *next += 1;
             s
         }
         From::Join(k, l, r, on) => {
-            let ls = sql_from(l, db, next, col);
+            let ls = sql_from(l, db, next, col, ctes.as_deref_mut());
             // a join on the right-hand side would need parentheses the grammar does not have: the generator only
             // builds left-deep trees; a right-nested tree is printed flat (and then means something else)
-            let rs = sql_from(r, db, next, col);
+            let rs = sql_from(r, db, next, col, ctes.as_deref_mut());
             let kw = match *k {
                 "inner" => "INNER JOIN",
                 "left" => "LEFT JOIN",
@@ -1090,12 +1168,14 @@ pub fn sql_stmt(s: &Stmt, db: &[Table]) -> String {
                 }
             };
             let mut next = 0;
-            let mut sql = format!(
-                "SELECT {}{} FROM {}",
-                if q.distinct { "DISTINCT " } else { "" },
-                items,
-                sql_from(&q.from, db, &mut next, &col)
-            );
+            let mut ctes: Ctes = Vec::new();
+            let from_sql = sql_from(&q.from, db, &mut next, &col, Some(&mut ctes));
+            let with = if ctes.is_empty() {
+                String::new()
+            } else {
+                format!("WITH {} ", ctes.iter().map(|(n, b)| format!("{} AS ({})", n, b)).collect::<Vec<_>>().join(", "))
+            };
+            let mut sql = format!("{}SELECT {}{} FROM {}", with, if q.distinct { "DISTINCT " } else { "" }, items, from_sql);
             if let Some(wh) = &q.where_ {
                 sql += &format!(" WHERE {}", sql_expr(wh, 1, &col));
             }
@@ -2213,7 +2293,27 @@ impl<'a> Gen<'a> {
             items.push(if expr_ty(&e, &tys).is_none() { E::Col(0) } else { e });
         }
         self.safe_arith = saved;
-        From::Derived(Box::new(inner), w, items)
+        // a third of them as common table expressions (only a top-level operand of FROM is written as one); now and then
+        // under the name of a table of the database that the statement does not read
+        let used = {
+            let mut ls = Vec::new();
+            let mut wd = 0;
+            leaves(&inner, db, &mut ls, &mut wd);
+            ls
+        };
+        let cte = if self.rng.chance(1, 3) {
+            let free: Vec<usize> = (0..db.len()).filter(|j| !used.iter().any(|(t, _)| t == j)).collect();
+            if !free.is_empty() && self.rng.chance(1, 3) {
+                self.tag("from.cte.shadows-table");
+                Cte::Shadow(*self.rng.pick(&free))
+            } else {
+                self.tag("from.cte");
+                Cte::Named
+            }
+        } else {
+            Cte::No
+        };
+        From::Derived(Box::new(inner), w, items, cte)
     }
 
     /// one operand of FROM: a table, now and then wrapped in a derived table
@@ -2225,7 +2325,12 @@ impl<'a> Gen<'a> {
     fn from(&mut self, db: &[Table], p: Profile, max_tables: usize) -> From {
         let f = self.from_tree(db, p, max_tables);
         // the whole FROM as a derived table (over a join, or a derived table of a derived table)
-        if self.rng.chance(1, 12) { self.derived_over(f, db, p) } else { f }
+        let mut f = if self.rng.chance(1, 12) { self.derived_over(f, db, p) } else { f };
+        // a CTE may take the name of a table only if the statement reads that table nowhere
+        let mut used = Vec::new();
+        all_tables(&f, &mut used);
+        unshadow(&mut f, &used);
+        f
     }
 
     fn from_tree(&mut self, db: &[Table], p: Profile, max_tables: usize) -> From {
@@ -2275,7 +2380,14 @@ impl<'a> Gen<'a> {
             f = self.derived_over(f, db, p);
         }
         for _ in 1..n {
-            let right = self.leaf(db, p);
+            let right = match &f {
+                // the same CTE a second time
+                From::Derived(.., Cte::Named | Cte::Shadow(_)) if self.rng.chance(1, 2) => {
+                    self.tag("from.cte.used-twice");
+                    f.clone()
+                }
+                _ => self.leaf(db, p),
+            };
             let kind = *self.rng.pick(&["inner", "inner", "left", "right", "full", "cross"]);
             self.tag(&format!("join.{}", kind));
             let ltys = from_tys(&f, db);
